@@ -88,6 +88,9 @@ def _c12_mixed(f: Failure) -> bool:
     if f["kind"] == "bytes-differ":
         return True
     if f["kind"] == "exception-on-wellformed-response":
+        if o.get("exc") == "OverflowError":
+            # body bytes read as a chunk-size line give an absurd length that cannot even be passed to read()
+            return "index-sized integer" in str(o.get("msg", ""))
         return o.get("exc") in ("ProtocolError", "ReadTimeoutError", "InvalidChunkLength", "AttributeError") or (o.get("exc") == "DecodeError" and o.get("coding") != "identity")
     return f["kind"] in ("short-read-before-end", "empty-piece-from-stream")
 
